@@ -17,7 +17,9 @@ func init() {
 			"Oracle: no error; shared indexes receive what decoding into S gives (reference expectation); removed fields are skipped exactly (the sentinel field after them is intact); fields absent from the data and added fields keep their pre-populated value. non-trivial = pair where at least one non-zero field of S is removed in S'",
 		Assumptions: []string{"field kinds are representatives of wire classes, not every leaf"},
 		Work:        c03Work,
-		Post:        func(a *mc.Agg) []string { return needDims(a, "removed:1", "removed:2", "reordered", "added", "nest:top", "nest:field", "nest:elem") },
+		Post: func(a *mc.Agg) []string {
+			return needDims(a, "removed:1", "removed:2", "reordered", "added", "nest:top", "nest:field", "nest:elem")
+		},
 	})
 }
 
